@@ -26,6 +26,7 @@ Definition decode_op (z : list Z) : option op :=
                                        modify applies its named parameter (an lvalue) twice, so nothing changes *)
   | [5; s] => Some (ReadHandle (Z.to_nat s))
   | [6; s] => Some (Release (Z.to_nat s))
+  | [6; s; _] => Some (Release (Z.to_nat s))   (* harness flag: first half of a handle "refresh" *)
   | [k; s] => if (1 <=? k) && (k <=? 4) then Some (LockShared k (Z.to_nat s)) else None
   | _ => None
   end.
